@@ -91,6 +91,22 @@ def check_case(mod, case):
         return ('equal-objects-different-hash', '')
     if hash(a) != ha:
         return ('hash-unstable', '')
+    # --- equality again, now that every object has been hashed (and may remember its hash)
+    for x, y in ((a, b), (b, a), (a, c), (b, c), (c, a)):
+        s = trees.same(x, y)
+        if (x == y) != s:
+            return ('eq-vs-structure-after-hashing', 'same=%r ==%r' % (s, x == y))
+        if (x != y) != (not s):
+            return ('ne-inconsistent-after-hashing', '')
+    fresh = trees.build(sa, mod)
+    if not (fresh == a and a == fresh) or (fresh == b) != trees.same(a, b) or (b == fresh) != trees.same(a, b):
+        return ('eq-hashed-vs-never-hashed', '')
+    classes = []
+    for x in (a, b, c):
+        if not any(trees.same(x, y) for y in classes):
+            classes.append(x)
+    if len({a, b, c}) != len(classes):
+        return ('set-merges-or-splits-values', 'set has %d members, %d distinct values' % (len({a, b, c}), len(classes)))
     # --- _asdict
     d = a._asdict()
     if tuple(d.keys()) != tuple(trees.FIELDS[type(a).__name__]) or tuple(d.keys()) != tuple(a._fields):
@@ -189,7 +205,7 @@ class C14(Check):
         def prop(data):
             parsed = data.draw(st.integers(0, 3)) == 0
             a = data.draw(trees.spec_strategy(parseable=parsed))
-            how = data.draw(st.sampled_from(['copy', 'copy', 'perturb', 'perturb', 'swapcls', 'independent']))
+            how = data.draw(st.sampled_from(['copy', 'copy', 'perturb', 'perturb', 'swapcls', 'independent', 'anagram', 'anagram', 'pairs']))
             revdict = data.draw(st.booleans())
             if how == 'copy':
                 b = a
@@ -197,6 +213,14 @@ class C14(Check):
                 b, _ = trees.perturb(a, data.draw(st.integers(0, 40)), data.draw(trees.leaf_strategy()))
             elif how == 'swapcls':
                 b, _ = trees.swap_class(a, data.draw(st.integers(0, 40)))
+            elif how == 'anagram':
+                b, _ = trees.anagram(a, data.draw(st.integers(0, 40)))
+            elif how == 'pairs':
+                # (x, x) against (y, y): the same multiplicities, different parts
+                k = data.draw(st.integers(0, 40))
+                a, _ = trees.anagram(a, k, 1)
+                b, _ = trees.perturb(a, data.draw(st.integers(0, 40)), data.draw(trees.leaf_strategy()))
+                b, _ = trees.anagram(b, k, 1)
             else:
                 b = data.draw(trees.spec_strategy(max_leaves=6))
             c = b if data.draw(st.booleans()) else data.draw(trees.spec_strategy(max_leaves=5))
@@ -208,7 +232,7 @@ class C14(Check):
             res.hist['parsed' if parsed else 'constructed'] += 1
             bad = check_case(mod, case)
             oa = trees.build(wrap_root(a), mod)
-            nt = trees.count_objects(oa) >= 2 and trees.has_kind(a, ('list', 'tuple', 'dict')) and how in ('copy', 'perturb', 'swapcls')
+            nt = trees.count_objects(oa) >= 2 and trees.has_kind(a, ('list', 'tuple', 'dict')) and how in ('copy', 'perturb', 'swapcls', 'anagram', 'pairs')
             if trees.has_kind(a, ('share',)):
                 res.hist['with_shared_node'] += 1
             if nt:
